@@ -216,7 +216,8 @@ func genC19(t *rapid.T) c19Case {
 		}
 		s, _ := render(all, genLayout(t, all, true))
 		c.Texts = append(c.Texts, s)
-		c.Seps = append(c.Seps, rapid.SampledFrom([]string{"", " ", "\n", "\r\n", "\t", "\n\n", " // between messages\n", "//x\n", " // remark\rmore\n", "// disabled:\rS9F9 H<-E .\n", "\t//\r<L\r\n", "//\u3000.\n"}).Draw(t, "joiner"))
+		c.Seps = append(c.Seps, rapid.SampledFrom([]string{"", " ", "\n", "\r\n", "\t", "\n\n", " // between messages\n", "//x\n", " // remark\rmore\n", "// disabled:\rS9F9 H<-E .\n", "\t//\r<L\r\n", "//\u3000.\n",
+			"\u00a0", "\u0085", "\u2028", "\u3000", "\u1680\n", "\v", "\f"}).Draw(t, "joiner"))
 	}
 	return c
 }
